@@ -385,9 +385,13 @@ def slim_member(case, m):
 
 def run_members(ctx, members, name):
     """runs every member in its generated orientation and in a rotated/translated/permuted one"""
-    rng = ctx.rng
+    import hashlib
+    import random as _random
     cases = []
     for mi, m in enumerate(members):
+        # orientation / translation / permutation of a member are a pure function of its label (NOT of VERIF_SEED): members on
+        # which the pinned tree fails are listed one by one in known_findings.json, which needs a fixed enumeration
+        rng = _random.Random(int(hashlib.sha256(("c18:" + m["label"]).encode()).hexdigest()[:12], 16))
         for variant in (0, 1):
             at, perm = transform(rng, m["atoms"], variant == 1)
             inv = {old: new for new, old in enumerate(perm)}
